@@ -92,10 +92,10 @@ Proof.
 Qed.
 Print Assumptions C05_tensor_is_kronecker.
 Example C05_nonvacuous_lifts :
-  let a := @XFunc G4 ZT4 (fun w t => emb (wf_fun w t)) None in
-  let b := @XPair G4 ZT4 (emb wB) (@CFun G4 ZT4 (fun _ t => gi t 1) None) in
+  let a := @XFunc G4 ZT4 (fun w t => emb (wf_fun w t)) wnone in
+  let b := @XPair G4 ZT4 (emb wB) (@CFun G4 ZT4 (fun _ t => gi t 1) wnone) in
   wfx G4 ZT4 a /\ wfx G4 ZT4 b /\
-  sem G4 ZT4 a 2%Z = emb (wf_fun None 2%Z) /\
+  sem G4 ZT4 a 2%Z = emb (wf_fun wnone 2%Z) /\
   map (kind_of G4 ZT4) (build G4 ZT4 (x_liouvillian G4 ZT4 t_spre t_spost (gi 0 (-1)) (gi 1 0) a [b]))
   <> [] /\
   qe_call G4 ZT4 (build G4 ZT4 (x_tensor G4 ZT4 t_tens_l t_tens_r a b)) 2%Z <> z4.
